@@ -53,7 +53,7 @@ theorem rttvar4x_eq : G.rttvar4x = Rtt.rttvar4x := by
 theorem updateRtt_eq : G.updateRtt = Rtt.updateRtt := by
   funext r ad s ts conf sp
   cases conf <;> cases sp <;>
-    simp [Quic.Generated.Recovery.updateRtt, Rtt.updateRtt, Rtt.applyAdjusted, weightedAverage_eq, min_rtt_eq,
+    simp [Quic.Generated.Recovery.updateRtt, Rtt.updateRtt, Rtt.finishUpdate, Rtt.applyAdjusted, weightedAverage_eq, min_rtt_eq,
       zero_duration_eq, Rtt.Space.isInitial, Rtt.ZERO_DURATION] <;>
     (repeat' split) <;> simp_all
 
